@@ -44,6 +44,7 @@ import (
 
 func init() {
 	lab.Register("c15-model", c15ModelJob)
+	lab.Register("c15-wide", c15WideJob)
 	lab.Register("c15-exh", c15ExhJob)
 }
 
@@ -551,6 +552,22 @@ func c15GenCfg(r *lab.Rand, u *c15Universe, idx int) *c15Cfg {
 	nsub := (1 << uint(nk)) - 1 // 7
 	selMask := 1 + idx%((1<<uint(nsub))-1)
 	cfg.Policy = uint8((idx / ((1 << uint(nsub)) - 1)) % 3)
+	if nk > 3 {
+		// wide universe: 1..3 selectors of 1..nk keys (sizes 4 and above over-represented), policy systematic
+		cfg.Policy = uint8(idx % 3)
+		selMask = 0
+		for n := 1 + r.Intn(3); n > 0; n-- {
+			size := r.PickInt(1, 2, 3, 4, 4, 5, nk, nk)
+			if size > nk {
+				size = nk
+			}
+			m := 0
+			for _, ki := range r.Perm(nk)[:size] {
+				m |= 1 << uint(ki)
+			}
+			selMask |= 1 << uint(m-1)
+		}
+	}
 	// selectors: the chosen key subsets, in random order, keys in random order, sometimes repeated
 	for _, si := range r.Perm(nsub) {
 		if selMask&(1<<uint(si)) == 0 {
@@ -673,6 +690,36 @@ func c15ModelJob(c *lab.Ctx) {
 	c.Exhaustive(false)
 	if replay < 0 {
 		c15Requirements(c, 2000, 50)
+	}
+}
+
+// c15-wide: selectors of up to 6 keys (the builders' key-combination code is exercised beyond 3 keys)
+func c15WideJob(c *lab.Ctx) {
+	c.Rule("generated: 6 keys {b,d,f,h,k,m} x values {x,y}: hosts 0..12 with partial metadata, 1..3 selectors of 1..6 keys (sizes >= 4 over-represented), every fallback policy, default subsets; " +
+		"per configuration ALL criteria (every key in {absent,x,y,unknown} = 4096, a third again with an unknown key). Both builders judged against the model and against each other. distinct as c15-model")
+	u := c15NewUniverse([]string{"b", "d", "f", "h", "k", "m"}, []string{"x", "y"}, "w", []string{"a", "g"}, false)
+	e := c15NewEngine(c, u)
+	total := c.Pick(1200, 12000)
+	nb := c.NBatch
+	if nb < 1 {
+		nb = 1
+	}
+	per := (total + nb - 1) / nb
+	base := c.Rand("wide")
+	replay := c.ReplayCase()
+	for i := 0; i < per; i++ {
+		r := base.Fork()
+		idx := c.Batch*per + i
+		if replay >= 0 && idx != replay {
+			continue
+		}
+		e.run(idx, c15GenCfg(r, u, idx))
+	}
+	e.flush()
+	c.Count("criteria-per-configuration", int64(len(u.crits)))
+	c.Exhaustive(false)
+	if replay < 0 {
+		c.RequireAll("wide: subset hits", c.Counter("obs:subset-hit") >= 50, fmt.Sprint(c.Counter("obs:subset-hit")))
 	}
 }
 
